@@ -115,6 +115,12 @@ def array_eq(a, b):
     return a.shape == b.shape and bool(np.all((a == b) | (np.isnan(a) & np.isnan(b))))
 
 
+def valid_values(a, nodata):
+    a = np.asarray(a)
+    with np.errstate(all="ignore"):
+        return a[np.isfinite(a) & (a != nodata)]
+
+
 def spec_env():
     specs = importlib.import_module("contracts.specs")
     env = {k: getattr(specs, k) for k in dir(specs) if not k.startswith("__")}
@@ -122,7 +128,7 @@ def spec_env():
                  sqrt=_np1(np.sqrt), atan=_np1(np.arctan), sin=_np1(np.sin), cos=_np1(np.cos), asin=_np1(np.arcsin),
                  exp=_np1(np.exp), atan2=_atan2, pi=math.pi, floor=math.floor, array2=array2, array_eq=array_eq,
                  nanmean=_nanred(np.nanmean), nansum=_nanred(np.nansum), nanmin=_nanred(np.nanmin), nanmax=_nanred(np.nanmax),
-                 nanstd=_nanred(np.nanstd), nanvar=_nanred(np.nanvar), inf=float("inf"))
+                 nanstd=_nanred(np.nanstd), nanvar=_nanred(np.nanvar), inf=float("inf"), valid_values=valid_values)
     env.update(extra)
     env.update(np=np, math=math)
     for k, v in extra.items():
@@ -198,6 +204,8 @@ def enc(v):
         return bool(v)
     if callable(v):
         return "<callable>"
+    if isinstance(v, dict):
+        return {str(k): enc(x) for k, x in v.items()}
     return v
 
 
